@@ -242,3 +242,290 @@ Proof.
 Qed.
 
 End CaaValid.
+
+(* ---------- pad files ---------- *)
+
+Lemma all_eq_app v a b : all_eq v (a ++ b) = all_eq v a && all_eq v b.
+Proof. unfold all_eq. apply forallb_app. Qed.
+
+Lemma In_firstn' {A} (x : A) n l : In x (firstn n l) -> In x l.
+Proof.
+  revert l. induction n as [|n IH]; intros l H; [destruct H|]. destruct l; [exact H|].
+  destruct H as [-> | H]; [left; reflexivity | right; apply IH; exact H].
+Qed.
+Lemma all_eq_firstn v n l : all_eq v l = true -> all_eq v (firstn n l) = true.
+Proof.
+  unfold all_eq. rewrite !forallb_forall. intros H x Hx. apply H. eapply In_firstn'; eauto.
+Qed.
+Lemma In_skipn {A} (x : A) n l : In x (skipn n l) -> In x l.
+Proof. revert l. induction n as [|n IH]; intros l H; [exact H|]. destruct l; [exact H|]. right. apply IH. exact H. Qed.
+Lemma all_eq_skipn v n l : all_eq v l = true -> all_eq v (skipn n l) = true.
+Proof.
+  unfold all_eq. rewrite !forallb_forall. intros H x Hx. apply H. eapply In_skipn; eauto.
+Qed.
+Lemma all_eq_zrepeat v n : all_eq v (zrepeat v n) = true.
+Proof.
+  unfold zrepeat. induction (Z.to_nat n) as [|k IH]; [reflexivity|].
+  cbn [repeatz all_eq forallb]. rewrite Z.eqb_refl. exact IH.
+Qed.
+
+Lemma nth_error_split' {A} (l : list A) k x : nth_error l k = Some x ->
+  exists l1 l2, l = l1 ++ x :: l2 /\ length l1 = k.
+Proof. intros H. destruct (nth_error_split l k H) as (l1 & l2 & E & L). eauto. Qed.
+
+Lemma skipn_app_len {A} (l1 r : list A) : skipn (length l1) (l1 ++ r) = r.
+Proof. induction l1 as [|a l IH]; cbn; auto. Qed.
+
+Lemma rd1_nth b k x : nth_error b k = Some x -> rd (Z.of_nat k) 1 b = x.
+Proof.
+  intros H. destruct (nth_error_split' b k x H) as (l1 & l2 & -> & L). subst k.
+  unfold rd, sub, zskipn, zfirstn. rewrite !Nat2Z.id. rewrite skipn_app_len.
+  cbn [firstn le_dec]. lia.
+Qed.
+
+(* the first n bytes are all v: so is byte k < n *)
+Lemma all_eq_rd v b n k : all_eq v (sub 0 n b) = true -> 0 <= k < n -> n <= zlen b -> rd k 1 b = v.
+Proof.
+  intros H Hk Hn. unfold sub, zskipn, zfirstn in H. cbn [Z.to_nat skipn] in H.
+  destruct (nth_error b (Z.to_nat k)) as [x|] eqn:E.
+  - rewrite <- (Z2Nat.id k) by lia. rewrite (rd1_nth b _ x E).
+    unfold all_eq in H. rewrite forallb_forall in H.
+    assert (Hin : In x (firstn (Z.to_nat n) b)).
+    { destruct (nth_error_split' b _ x E) as (l1 & l2 & -> & L).
+      rewrite firstn_app. apply in_or_app. right.
+      replace (Z.to_nat n - length l1)%nat with (S (Z.to_nat n - length l1 - 1)) by lia.
+      left. reflexivity. }
+    specialize (H x Hin). lia.
+  - apply nth_error_None in E. unfold zlen in Hn. lia.
+Qed.
+
+Section PadValid.
+Variable vfv : bytes -> bool.
+
+Lemma set_size_large size : attr_large (snd (set_size 0 size false)) = (16777215 <=? size).
+Proof. unfold set_size. destruct (16777215 <=? size); reflexivity. Qed.
+
+Lemma pad_as_caa pol size b : create_pad_file pol size = Ok b ->
+  exists attr, (attr = 0 \/ attr = 1) /\ attr_large attr = (16777215 <=? size) /\ 24 <= size /\
+    (pol = 0 \/ pol = 255) /\
+    b = snd (checksum_and_assemble
+               (mkFile (zrepeat pol 16) 0 0 240 attr (write3 size) (Z.lxor 7 pol) size 24 None)
+               size attr (zrepeat pol (size - file_hlen attr))).
+Proof.
+  unfold create_pad_file. destruct (size <? 24) eqn:E1; [discriminate|].
+  destruct (negb ((pol =? 255) || (pol =? 0))) eqn:E2; [discriminate|].
+  pose proof (set_size_large size) as L.
+  unfold set_size in *. destruct (16777215 <=? size) eqn:E3; cbn [snd] in L.
+  - change (set_large 0 true) with 1 in *. intros H. exists 1. repeat split; auto; try lia.
+    inversion H. unfold file_hlen. rewrite L. reflexivity.
+  - change (set_large 0 false) with 0 in *. intros H. exists 0. repeat split; auto; try lia.
+    inversion H. unfold file_hlen. rewrite L. reflexivity.
+Qed.
+
+Lemma pad_v_file pol size b : create_pad_file pol size = Ok b -> size < 2 ^ 64 -> v_file vfv b = true.
+Proof.
+  intros H Hs. destruct (pad_as_caa pol size b H) as (attr & Ha & Hl & H24 & Hp & ->).
+  assert (Hh : file_hlen attr <= size) by (unfold file_hlen; destruct (attr_large attr); lia).
+  apply caa_v_file.
+  - cbn [f_guid]. apply zlen_zrepeat. lia.
+  - lia.
+  - rewrite zlen_zrepeat by lia. lia.
+  - exact Hl.
+  - reflexivity.
+Qed.
+
+Lemma pad_attr pol size b : create_pad_file pol size = Ok b ->
+  attr_align (rd 19 1 b) = 1 /\ file_hlen (rd 19 1 b) <= size.
+Proof.
+  intros H. destruct (pad_as_caa pol size b H) as (attr & Ha & Hl & H24 & Hp & ->).
+  unfold checksum_and_assemble. cbn [snd f_guid].
+  rewrite fhb_rd19 by (apply zlen_zrepeat; lia).
+  split.
+  - destruct Ha as [-> | ->]; reflexivity.
+  - unfold file_hlen. rewrite Hl. destruct (16777215 <=? size) eqn:E; lia.
+Qed.
+
+Lemma pad_not_free pol size b : create_pad_file pol size = Ok b -> all_eq pol (sub 0 24 b) = false.
+Proof.
+  intros H. destruct (all_eq pol (sub 0 24 b)) eqn:E; [|reflexivity]. exfalso.
+  pose proof (create_pad_file_len pol size b H) as Lb.
+  destruct (pad_as_caa pol size b H) as (attr & Ha & Hl & H24 & Hp & Eb).
+  assert (R : rd 17 1 b = pol) by (eapply all_eq_rd; eauto; lia).
+  rewrite Eb in R. unfold checksum_and_assemble in R. cbn [snd f_guid] in R.
+  rewrite fhb_rd17 in R by (apply zlen_zrepeat; lia).
+  assert (Hc : attr_checksum attr = false) by (destruct Ha as [-> | ->]; reflexivity).
+  rewrite Hc in R. lia.
+Qed.
+
+End PadValid.
+
+(* ---------- the reader accepts the file area the file loop builds ---------- *)
+
+Lemma zfirstn_app_le {A} n (a b : list A) : n <= zlen a -> zfirstn n (a ++ b) = zfirstn n a.
+Proof.
+  intros H. unfold zfirstn, zlen in *. rewrite firstn_app.
+  replace (Z.to_nat n - length a)%nat with 0%nat by lia. cbn [firstn]. apply app_nil_r.
+Qed.
+
+Lemma zskipn_app_le {A} n (a b : list A) : n <= zlen a -> zskipn n (a ++ b) = zskipn n a ++ b.
+Proof.
+  intros H. unfold zskipn, zlen in *. rewrite skipn_app.
+  replace (Z.to_nat n - length a)%nat with 0%nat by lia. reflexivity.
+Qed.
+
+Lemma sub_app_inl (a b : bytes) off len : 0 <= off -> 0 <= len -> off + len <= zlen a ->
+  sub off len (a ++ b) = sub off len a.
+Proof.
+  intros H1 H2 H3. unfold sub. rewrite zskipn_app_le by lia.
+  apply zfirstn_app_le. rewrite zlen_zskipn by lia. lia.
+Qed.
+
+(* a window inside the middle part of A ++ g ++ R *)
+Lemma sub_mid (A g R : bytes) p k n : zlen A = p -> 0 <= k -> 0 <= n -> k + n <= zlen g ->
+  sub (p + k) n (A ++ g ++ R) = sub k n g.
+Proof.
+  intros HA Hk Hn Hl. pose proof (zlen_nonneg A).
+  rewrite (sub_app_skip A (g ++ R) (p + k) n p HA ltac:(lia)).
+  replace (p + k - p) with k by lia. apply sub_app_inl; lia.
+Qed.
+
+Lemma rd_mid (A g R : bytes) p k w : zlen A = p -> 0 <= k -> k + Z.of_nat w <= zlen g ->
+  rd (p + k) w (A ++ g ++ R) = rd k w g.
+Proof. intros. unfold rd. f_equal. apply sub_mid; auto; lia. Qed.
+
+Lemma all_eq_zskipn v n l : all_eq v l = true -> all_eq v (zskipn n l) = true.
+Proof. apply all_eq_skipn. Qed.
+Lemma all_eq_zfirstn v n l : all_eq v l = true -> all_eq v (zfirstn n l) = true.
+Proof. apply all_eq_firstn. Qed.
+
+Section FilesValid.
+Variable vfv : bytes -> bool.
+Variable pol : Z.
+
+(* a file the reader accepts on its own, whose header cannot be mistaken for free space *)
+Definition fok (g : bytes) : bool := v_file vfv g && negb (all_eq pol (sub 0 24 g)).
+
+Lemma v_file_facts g : v_file vfv g = true ->
+  file_hlen (rd 19 1 g) <= zlen g /\
+  (if attr_large (rd 19 1 g) then rd 24 8 g else rd 20 3 g) = zlen g.
+Proof.
+  unfold v_file, file_hlen. intros H.
+  repeat (apply andb_true_iff in H; destruct H as [H ?]).
+  split; lia.
+Qed.
+
+(* one step of the reader over a file g that lies at the 8-aligned offset p *)
+Lemma v_files_step k (A g R : bytes) p : zlen A = p -> 0 <= p ->
+  fok g = true -> (p + file_hlen (rd 19 1 g)) mod attr_align (rd 19 1 g) = 0 ->
+  v_files vfv (S k) pol (A ++ g ++ R) p = v_files vfv k pol (A ++ g ++ R) (align8 (p + zlen g)).
+Proof.
+  intros HA Hp Hok Hal. unfold fok in Hok. apply andb_true_iff in Hok as [Hv Hnf].
+  destruct (v_file_facts g Hv) as [Hhl Hsz].
+  assert (H24 : 24 <= zlen g) by (unfold file_hlen in Hhl; destruct (attr_large (rd 19 1 g)); lia).
+  pose proof (zlen_nonneg R) as HR.
+  set (V := A ++ g ++ R).
+  assert (LV : zlen V = p + zlen g + zlen R) by (unfold V; rewrite !zlen_app; lia).
+  cbn [v_files]. fold V.
+  replace (zlen V <? p + 24) with false by lia.
+  assert (S24 : sub p 24 V = sub 0 24 g).
+  { unfold V. replace p with (p + 0) at 1 by lia. apply sub_mid; auto; lia. }
+  rewrite S24. destruct (all_eq pol (sub 0 24 g)); [discriminate|]. clear Hnf.
+  assert (R19 : rd (p + 19) 1 V = rd 19 1 g) by (unfold V; apply rd_mid; auto; lia).
+  rewrite R19. set (attr := rd 19 1 g) in *.
+  replace (zlen V <? p + file_hlen attr) with false by lia.
+  assert (An : announced V p = zlen g).
+  { unfold announced. rewrite R19. fold attr. rewrite <- Hsz.
+    destruct (attr_large attr) eqn:El.
+    - unfold V. apply rd_mid; auto; try lia. unfold file_hlen in Hhl. rewrite El in Hhl. cbn. lia.
+    - unfold V. apply rd_mid; auto; try lia. cbn. lia. }
+  rewrite An.
+  replace (file_hlen attr <=? zlen g) with true by lia.
+  replace (p + zlen g <=? zlen V) with true by lia.
+  assert (Sg : sub p (zlen g) V = g) by (unfold V; rewrite <- HA; apply sub_app_mid).
+  rewrite Sg, Hv, Hal. reflexivity.
+Qed.
+
+Lemma v_files_free k V p : all_eq pol (zskipn p V) = true -> v_files vfv (S k) pol V p = true.
+Proof.
+  intros H. cbn [v_files]. destruct (zlen V <? p + 24); [exact H|].
+  unfold sub. rewrite (all_eq_zfirstn _ _ _ H). exact H.
+Qed.
+
+Lemma align8_fix p : p mod 8 = 0 -> align8 p = p.
+Proof. intros H. unfold align8, align. pose proof (Z.div_mod p 8 ltac:(lia)). 
+  replace (p + 8 - 1) with (8 * (p / 8) + 7) by lia.
+  rewrite Z.mul_comm, Z.div_add_l by lia. change (7 / 8) with 0. lia. Qed.
+
+(* the whole loop *)
+Lemma v_files_place limit : forall files buf off B,
+  (pol = 0 \/ pol = 255) -> zlen buf = off -> 0 <= off ->
+  Forall (fun f => fok (node_buf f) = true /\ rd 19 1 (node_buf f) = node_attr f) files ->
+  (forall f, In f files -> zlen (node_buf f) < 2 ^ 64) -> end_of off files < 2 ^ 64 ->
+  place_files pol limit buf off files = Ok B ->
+  forall E fuel, all_eq pol E = true -> (2 * length files < fuel)%nat ->
+    v_files vfv fuel pol (B ++ E) (align8 off) = true.
+Proof.
+  induction files as [|f r IH]; intros buf off B Hpol Hb Hoff Hok Hsz Hend H E fuel HE Hfuel.
+  - cbn [place_files] in H. inversion H; subst B. destruct fuel as [|k]; [cbn in Hfuel; lia|].
+    apply v_files_free. pose proof (align8_ge (zlen buf)).
+    rewrite zskipn_app_ge by lia. apply all_eq_zskipn. exact HE.
+  - inversion Hok as [|? ? [Hf Hattr] Hokr]; subst.
+    pose proof H as H0.
+    rewrite place_files_cons in H. cbv zeta in H.
+    destruct (zlen (node_buf f) =? 0) eqn:Ez; [discriminate|].
+    destruct (align_gap_ok (zlen buf) f Hoff) as (G1 & G2 & G3 & G4). pose proof (align8_ge (zlen buf)) as G8.
+    pose proof (align8_mult (zlen buf)) as M8.
+    set (no := file_start (zlen buf) f) in *. set (a0 := align8 (zlen buf)) in *.
+    destruct (match limit with Some l => l <? no + zlen (node_buf f) | None => false end); [discriminate|].
+    assert (Hpos : 0 <= no + zlen (node_buf f)) by (pose proof (zlen_nonneg (node_buf f)); lia).
+    assert (Hszr : forall f0, In f0 r -> zlen (node_buf f0) < 2 ^ 64) by (intros; apply Hsz; right; auto).
+    cbn [end_of] in Hend. unfold file_end in Hend. fold no in Hend.
+    assert (Hfr : (2 * length r < fuel - 2)%nat) by (cbn [length] in Hfuel; lia).
+    destruct (no =? a0) eqn:En.
+    + (* no pad file *)
+      cbn [bind] in H. apply bind_ok in H as (b2 & Hi & H).
+      apply insert_file_ok in Hi as (I1 & I2 & I3).
+      destruct (place_files_layout pol limit r b2 (no + zlen (node_buf f)) B I3 Hpos H) as (_ & (D & ED) & _).
+      specialize (IH b2 (no + zlen (node_buf f)) B Hpol I3 Hpos Hokr Hszr Hend H E (fuel - 1)%nat HE ltac:(lia)).
+      destruct fuel as [|k]; [lia|]. replace (S k - 1)%nat with k in IH by lia.
+      assert (EB : B ++ E = (buf ++ zrepeat pol (no - zlen buf)) ++ node_buf f ++ (D ++ E)).
+      { rewrite ED, I2. rewrite <- !app_assoc. reflexivity. }
+      replace a0 with no by lia.
+      rewrite EB. rewrite v_files_step.
+      * rewrite <- EB. exact IH.
+      * rewrite zlen_app, zlen_zrepeat by lia. lia.
+      * lia.
+      * exact Hf.
+      * rewrite Hattr. exact G3.
+    + (* a pad file first *)
+      apply bind_ok in H as ([b1 a1] & Hs & H).
+      apply bind_ok in Hs as (pf & Hp & Hs). apply bind_ok in Hs as (b & Hi & Hs). inversion Hs; subst b1 a1.
+      pose proof (create_pad_file_len _ _ _ Hp) as Lp.
+      apply insert_file_ok in Hi as (I1 & I2 & I3).
+      apply bind_ok in H as (b2 & Hi2 & H).
+      apply insert_file_ok in Hi2 as (J1 & J2 & J3).
+      destruct (place_files_layout pol limit r b2 (no + zlen (node_buf f)) B J3 Hpos H) as (_ & (D & ED) & _).
+      specialize (IH b2 (no + zlen (node_buf f)) B Hpol J3 Hpos Hokr Hszr Hend H E (fuel - 2)%nat HE Hfr).
+      destruct fuel as [|[|k]]; try lia. replace (S (S k) - 2)%nat with k in IH by lia.
+      assert (Z0 : no - zlen b = 0) by lia.
+      assert (EB : B ++ E = (buf ++ zrepeat pol (a0 - zlen buf)) ++ pf ++ (node_buf f ++ D ++ E)).
+      { rewrite ED, J2, I2, Z0. change (zrepeat pol 0) with (@nil Z). rewrite <- !app_assoc. reflexivity. }
+      assert (EB2 : B ++ E = ((buf ++ zrepeat pol (a0 - zlen buf)) ++ pf) ++ node_buf f ++ (D ++ E)).
+      { rewrite EB. rewrite <- !app_assoc. reflexivity. }
+      destruct (pad_attr pol (no - a0) pf Hp) as [Pa Ph].
+      rewrite EB. rewrite v_files_step.
+      * rewrite Lp. replace (a0 + (no - a0)) with no by lia. rewrite (align8_fix no G2).
+        rewrite <- EB, EB2. rewrite v_files_step.
+        -- rewrite <- EB2. exact IH.
+        -- rewrite !zlen_app, zlen_zrepeat by lia. lia.
+        -- lia.
+        -- exact Hf.
+        -- rewrite Hattr. exact G3.
+      * rewrite zlen_app, zlen_zrepeat by lia. lia.
+      * lia.
+      * unfold fok. rewrite (pad_v_file vfv pol (no - a0) pf Hp), (pad_not_free pol (no - a0) pf Hp); [reflexivity|].
+        pose proof (zlen_nonneg (node_buf f)). lia.
+      * rewrite Pa. apply Z.mod_1_r.
+Qed.
+
+End FilesValid.
